@@ -626,7 +626,9 @@ class Data(Field):
             search_buffer = raw[offset:]
 
         count = search_buffer.find(until_marker)
-        assert count >= 0
+        if count < 0:
+            # not an assert: the input is checked with python -O too
+            raise Exception("Delimiter %s not found" % repr(until_marker))
 
         extra_count = 0
         if self.include_delimiter:
@@ -666,7 +668,10 @@ class Data(Field):
                         extra_count = match.end() - count
                     self._remember_delimiter(pkt, match.group())
             else:
-                assert False
+                raise Exception(
+                    "No match for the delimiter %s" %
+                    repr(until_marker.pattern)
+                )
 
         next_offset = offset + count
         setattr(pkt, self.field_name, raw[offset:next_offset])
